@@ -2,7 +2,7 @@
 # usage: try_all_round.sh <suffix> [b|m]   summary of all /tmp/wtout/c??<suffix>/{m,b}* patches (in memory)
 suf=$1; kind=${2:-bm}
 for d in /tmp/wtout/c??$suf; do
-  for k in $d/m1 $d/m2 $d/m3 $d/b1 $d/b2; do
+  for k in $d/m1 $d/m2 $d/m3 $d/b1 $d/b2 $d/b3 $d/b4; do
     [ -f $k/patch.diff ] || continue
     case $(basename $k) in m*) echo $kind | grep -q m || continue;; b*) echo $kind | grep -q b || continue;; esac
     out=$(/venv/bin/python /verif/tools/try_patch.py $k/patch.diff 2>&1)
